@@ -81,6 +81,11 @@ def run(ctx: Ctx) -> int:
     outer = [("x", celx.enc({"t": "int", "v": 100})), ("y", celx.enc({"t": "int", "v": 200}))]
     evalx.replay_states(ctx, [(s["prog"], outer, s["exp"]) for s in mstates])
     ctx.cov["replayed_macro_programs"] = len(mstates)
+    # identifiers whose spelling means something to Python or to the implementation's internals
+    r = ctx.tlc("MC_C12", 'SPECIFICATION Spec\nCONSTANT MODE = "idents"\nINVARIANT SpellingIrrelevant\nCHECK_DEADLOCK FALSE\n', dump=True, name="identifier spellings")
+    istates = [s for s in read_dump(r.dump) if not (s["prog"]["k"] == "lit")]
+    evalx.replay_states(ctx, [(s["prog"], [(b[0], b[1]) for b in s["bs"]], s["exp"]) for s in istates])
+    ctx.cov["replayed_identifier_programs"] = len(istates)
     ctx.sample({"cel": celx.render_ast(mstates[0]["prog"]), "outer": {"x": 100, "y": 200}, "expected": mstates[0]["exp"]})
     # code -> spec: random macro nestings with random variable names, judged by Trace_Eval (Eval models scoping with an environment stack)
     rng = random.Random(ctx.seed)
